@@ -141,11 +141,12 @@ DK_PAIRS = [(Fraction(1), Fraction(1)), (Fraction(1), Fraction(-1)), (Fraction(1
             (Fraction(1), Fraction(1, 2 ** 30)), (Fraction(3), Fraction(-3)), (Fraction(1), Fraction(3)), (Fraction(-1), Fraction(-1)),
             (Fraction(1), Fraction(0))]
 DK_C = [Fraction(2), Fraction(-1), Fraction(1, 2), Fraction(3), Fraction(-3, 4), Fraction(1, 2 ** 30), Fraction(4), Fraction(-2)]
-def directed_kernel(rng, kh, kw, kind, pos=None, nonneg=False, pow2=False):
+def directed_kernel(rng, kh, kw, kind, pos=None, nonneg=False, pow2=False, tiny=True):
     """kernels that a shortcut of the kind `is this the identity kernel / is there anything to blur` may misjudge: a single entry
     (1 or c != 1) at ANY position (a unit shift, a basis kernel), two entries (sum 1, sum 0, one of them at the centre or not),
     centre 1 plus entries that cancel (sum 1, centre 1, yet not the identity), centre 1 plus an entry of 2^-30 (identity within 1e-8).
-    nonneg: no negative entries; pow2: the sum must be +-2^j (so that K / sum K is exact)"""
+    nonneg: no negative entries; pow2: the sum must be +-2^j (so that K / sum K is exact); tiny=False: no entries of 2^-30 (for
+    streams whose image values are not integers / quarters, where such products would be rounded)"""
     cells = [(a, b) for a in range(kh) for b in range(kw)]
     centre = (kh // 2, kw // 2)
     if pos is None: pos = rng.choice(cells)
@@ -154,10 +155,10 @@ def directed_kernel(rng, kh, kw, kind, pos=None, nonneg=False, pow2=False):
         if kind in ("one", "two", "centre1", "idtiny"): return one_hot(kh, kw, pos[0], pos[1])
         kind = "onec"
     if kind == "onec":
-        cs = [c for c in DK_C if (c > 0 or not nonneg) and (is_pow2(c) or not pow2)]
+        cs = [c for c in DK_C if (c > 0 or not nonneg) and (is_pow2(c) or not pow2) and (tiny or c.denominator <= 4)]
         return one_hot(kh, kw, pos[0], pos[1], rng.choice(cs))
     if kind in ("two", "twoc"):
-        prs = [p for p in DK_PAIRS if p[1] != 0 and (min(p) >= 0 or not nonneg) and (is_pow2(sum(p)) or not pow2)]
+        prs = [p for p in DK_PAIRS if p[1] != 0 and (min(p) >= 0 or not nonneg) and (is_pow2(sum(p)) or not pow2) and (tiny or p[1].denominator <= 4)]
         c1, c2 = rng.choice(prs)
         if kind == "twoc": pos = centre; others = [p for p in cells if p != pos]
         K = one_hot(kh, kw, pos[0], pos[1], c1); q = rng.choice(others); K[q[0]][q[1]] = c2
@@ -169,7 +170,7 @@ def directed_kernel(rng, kh, kw, kind, pos=None, nonneg=False, pow2=False):
         return K
     # idtiny (also the fallback): the centre is 1 and one other entry is tiny (2^-30) or, when the sum must be a power of two, 1 or 3
     K = one_hot(kh, kw, centre[0], centre[1]); q = rng.choice([p for p in cells if p != centre])
-    K[q[0]][q[1]] = rng.choice([Fraction(1), Fraction(3)]) if pow2 else Fraction(rng.choice([1, 3] if nonneg else [1, -1, 3]), 2 ** 30)
+    K[q[0]][q[1]] = rng.choice([Fraction(1), Fraction(3)]) if (pow2 or not tiny) else Fraction(rng.choice([1, 3] if nonneg else [1, -1, 3]), 2 ** 30)
     return K
 def dk_positions(rng, kh, kw):
     """sample of positions for the full pipeline: the corners, the centre, the neighbours of the centre, the edge mid-points, two random"""
@@ -192,6 +193,7 @@ def gen_inputs(tier, rng):
         m = rand_mask(rng, H, W, kh, kw, rng.choice(styles))
         if m is None: continue
         K = rand_kernel(rng, kh, kw, quarters=(i % 5 == 0))
+        if i % 9 == 7: K = directed_kernel(rng, kh, kw, DK_KINDS[(i // 9) % 6])      # one-hot / two-hot / near-identity kernels
         nun = sum(1 for r in m for b in r if not b)
         seed = rng.randrange(10 ** 9)
         # magnitudes: the whole case rescaled by a power of two (exact): values down to ~1e-10 / up to ~1e13, tiny / huge kernels
@@ -202,7 +204,7 @@ def gen_inputs(tier, rng):
         fine = (i % 11 == 2)
         if fine: K = [[v + Fraction(rng.choice([-1, 0, 1, 3]), 2 ** 30) for v in r] for r in K]
         for op in (["convolve", "noblur", "matrix", "init"] if i % 3 else ["convolve", "matrix", "whole", "init"]):
-            yield {"op": op, "m": m, "K": sk(K), "seed": seed, "sparse": bool(i % 2), "vs": vs, "ks": ks, "ints": fine, "zs": i % 4 == 1}
+            yield {"op": op, "m": m, "K": sk(K), "seed": seed, "sparse": bool(i % 2), "vs": vs, "ks": ks, "ints": fine or any(v.denominator > 4 for r in K for v in r), "zs": i % 4 == 1}
         # the whole operator, extracted on basis images (unit image / unit blurring image), for small masks
         nb = blur_count(m, kh, kw)
         if i % 6 == 3 and nun + nb <= 14:
@@ -226,7 +228,9 @@ def gen_inputs(tier, rng):
         m = rand_mask(rng, H, W, kh, kw, rng.choice(styles[:5]))
         m2 = rand_mask(rng, H, W, kh, kw, "random")
         if m is None or m2 is None: continue
-        yield {"op": "hist", "m": m, "m2": m2, "K": sk(rand_kernel(rng, kh, kw, quarters=(i % 4 == 0))),
+        Kh = rand_kernel(rng, kh, kw, quarters=(i % 4 == 0))
+        if i % 3 == 1: Kh = directed_kernel(rng, kh, kw, DK_KINDS[(i // 3) % 6], tiny=False)
+        yield {"op": "hist", "m": m, "m2": m2, "K": sk(Kh),
                "K2": sk(rand_kernel(rng, kh, kw)), "seed": rng.randrange(10 ** 9), "sparse": bool(i % 2),
                "vs": rng.choice([0, 0, 0, -30, 30]), "ks": 0,
                "how": {"mask": MASK_HOW[i % 4], "kernel": KERNEL_HOW[(i // 2) % 4], "image": IMAGE_HOW[i % 6]}}
@@ -301,6 +305,7 @@ def gen_kinds(rng, i):
         s0 = sum(v for r in K for v in r)
         K[kh // 2][kw // 2] += rng.choice([Fraction(1), Fraction(2), Fraction(-4), Fraction(1, 2), Fraction(8), Fraction(-1)]) - s0
     if kk == "fine": K = [[v + Fraction(rng.choice([-1, 1, 3]), 2 ** 30) for v in r] for r in K]
+    if kk in ("plain", "sub", "slim", "f32") and (i // 12) % 2 == 0: K = directed_kernel(rng, kh, kw, DK_KINDS[(i + i // 12) % 6])
     return {"op": "kinds", "m": m, "K": sk(K), "seed": rng.randrange(10 ** 9), "kk": kk,
             "ik": IMG_KINDS[(i // 2) % len(IMG_KINDS)], "mk": MAT_KINDS[(i // 3) % len(MAT_KINDS)], "mask_kind": MASK_KINDS[(i // 5) % 4],
             "mps": SCALES[i % 5], "kps": SCALES[(i // 2 + 1) % 5], "aps": SCALES[(i // 3 + 2) % 5],
@@ -329,6 +334,9 @@ def gen_sim(rng, i):
         K[kh // 2][kw // 2] += tgt - s0
     elif all(v == 0 for r in K for v in r) and rng.random() < 0.7:
         K[kh // 2][kw // 2] = Fraction(1)
+    if i % 3 == 1 and not even and not psf_none:
+        # a directed PSF: a unit shift / basis kernel, two entries, centre 1 plus cancelling entries, the identity plus one more entry
+        K = directed_kernel(rng, kh, kw, DK_KINDS[(i // 3) % 6], nonneg=not signed, pow2=normalize)
     if psf_none: K = [[Fraction(int((a, b) == (1, 1))) for b in range(3)] for a in range(3)]      # sum 1: normalising changes nothing
     nimg = 1 if i % 2 else 2
     images = []
